@@ -742,7 +742,10 @@ func (fr *Frame) runCallbackLoop(cv *closureVal, calleeCt *Contract, paramName s
 				}
 			}
 		}
-		pre := &State{alloc: allocBefore}
+		// old(...) in a "callback P assume" clause is the state at the call of the callee (fresh() is relative to the
+		// objects that existed when this invocation of the callback started)
+		pre := st.clone()
+		pre.alloc = allocBefore
 		for _, c := range assumes {
 			ctx := fr.newEvalCtx(s, pre, names)
 			v, err := ctx.eval(c.E)
